@@ -239,6 +239,8 @@ Proof.
     set (s5 := set_ddam _ _).
     assert (E5 : ress s5 = ress s) by (unfold s5; cbn [set_ddam set_damm set_kamm ress]; rewrite A4; unfold s3; cbn [set_samm ress]; congruence).
     destruct (get_set s5 h); cbn [fst set_sets set_sidx ress]; exact E5.
+  - apply (AllRes_same PR s); [|exact H]. unfold store_add_key. destruct (ref_set s d) as [h|]; [|reflexivity].
+    destruct (get_set s h) as [ds|]; [|reflexivity]. destruct (dset_add_key ds tok) as [d' r]. reflexivity.
 Qed.
 
 Theorem step_SelInv s o : SelInv s -> SelInv (fst (step s o)).
